@@ -10,6 +10,7 @@ sys.dont_write_bytecode = True
 sys.setrecursionlimit(20000)
 
 NATIVE_PY = '/venv/bin/python'
+SPEC_VALIDATED = []
 
 def _work(job):
     prop, k, iid, case, tier, seed = job
@@ -69,6 +70,14 @@ def main(argv=None):
         return 1 if r.get('outcome') == 'fails' else 0
     t0 = time.time()
     from pyvc import oblig
+    # the executable specifications are cross-checked against independent oracles before anything is compared with them
+    global SPEC_VALIDATED
+    try:
+        from spec import validate
+        SPEC_VALIDATED = validate.run(prop)
+    except Exception as e:
+        print('CHECKER-BROKEN property=%s: specification does not agree with its independent oracle: %s: %s' % (prop, type(e).__name__, e))
+        return 3
     obs = oblig.load(prop)
     jobs = []
     for k, ob in enumerate(obs):
@@ -231,6 +240,7 @@ def write_evidence(prop, tier, seed, results, proved, bounded, known, violations
             'paths': sum(r.get('paths') or 0 for r in results),
             'goals': sum(r.get('goals') or 0 for r in results),
             'canary_refuted_and_replayed': canary_ok,
+            'spec_validated_against_independent_oracles': SPEC_VALIDATED,
             'selfcheck_agreements': sum((r.get('selfcheck') or {}).get('agree', 0) for r in results),
             'undecided': [r['id'] for r in undecided],
             'violations': [{'obligation': r['id'], 'clause': r.get('label'), 'replay': p} for r, p, s in violations],
